@@ -337,7 +337,7 @@ def _gen_keyfn(rng, fams, ctxkind, p_none=0.5, n=1):
     src = [(j, rng.choice(_G_BY_FAM[fams[j]])) for j in js]
     classes = [_out_class(fams[j], g) for j, g in src]
     if ctxkind in ('flat', 'hier'):
-        packs = ['array', 'array', 'array_n1'] if len(src) == 1 else ['array']
+        packs = (['array'] * 9 + ['array_n1']) if len(src) == 1 else ['array']
         if ctxkind == 'flat':
             packs += ['index', 'hier'] if n else ['index']
     elif ctxkind == 'series':
@@ -495,6 +495,8 @@ def _frame_values_axis0(rng):
     """Columns are arranged by the cells of 1..3 key rows: many columns, few rows, all columns
     of one comparable family (the row is consolidated to one array by the library)."""
     n = _pick_n(rng)  # number of columns = sorted axis
+    if n == 0 and rng.random() < 0.8:
+        n = rng.randint(2, 16)
     col_kind = rng.choice(['str', 'int', 'auto', 'negint'] * 3 + ['hier3', 'hier2'])
     cols, _ = _axis_labels(rng, col_kind, n)
     n = len(cols)
@@ -518,7 +520,7 @@ def _frame_values_axis0(rng):
         if not missing_ok:
             pool = [v for v in pool if not canon.is_missing(v)]
         subpools[dt] = rng.sample(pool, min(len(pool), rng.choice([1, 2, 3, 4, len(pool)])))
-    lossy = family == 'num' and rng.random() < 0.25
+    lossy = family == 'num' and rng.random() < 0.06
     cells = []
     for _ in range(nr):
         row = []
@@ -547,7 +549,7 @@ def _frame_values_axis0(rng):
 def generate(ctx):
     rng = ctx.rng
     per_spec = 2 if ctx.tier == 'quick' else 3
-    for _ in range(ctx.n(26000, 420000)):
+    for _ in range(ctx.n(32000, 420000)):
         r = rng.random()
         if r < 0.17:
             yield _series_case(rng, 'series.sort_values')
@@ -627,7 +629,7 @@ def _make_keyfn(desc, axis, holder):
                 return c.values[:, [j for j, _ in src]]
             vecs = _vectors_of(c, axis)
             # any elementwise map of an empty vector is that empty vector (its dtype is not the axis' dtype)
-            derived = [vecs[j] if len(vecs[j]) == 0 else _G[g][0](vecs[j]) for j, g in src]
+            derived = [np.zeros(0, dtype=np.int64) if len(vecs[j]) == 0 else _G[g][0](vecs[j]) for j, g in src]
             if pack == 'array':
                 if len(derived) == 1:
                     return np.array(derived[0])
@@ -731,7 +733,8 @@ def _call(fn):
         return None, e
 
 
-def _judge(ctx, case, run, in_snap, what, vectors, sorted_labels, hier, key_is_index, fn_axis, klass, fingerprint):
+def _judge(ctx, case, run, in_snap, what, vectors, sorted_labels, hier, key_is_index, fn_axis, klass, fingerprint,
+           arg_non_tree=False):
     """Common part: reference arrangement, execution, comparison.  `hier`: the sorted axis
     carries hierarchical labels; `key_is_index`: the keys are that axis' labels;
     `fn_axis`: 1 when key vectors are columns / index depths, 0 when they are rows."""
@@ -786,6 +789,13 @@ def _judge(ctx, case, run, in_snap, what, vectors, sorted_labels, hier, key_is_i
     if keyfn is not None:
         ctx.tally('key_fn_received', holder.get('received'))
 
+    if arg_non_tree:
+        # the Frame handed to the key function would carry hierarchical labels in a non-tree order
+        if isinstance(exc, sf.ErrorInitIndex):
+            ctx.tally('outcome', 'ErrorInitIndex(non_tree_key_function_argument)')
+            return
+        if exc is None:
+            ctx.tally('outcome', 'non_tree_key_function_argument_accepted')
     non_tree = hier and not K.is_tree([sorted_labels[i] for i in exp])
     if non_tree:
         if exc is None:
@@ -918,6 +928,10 @@ def _check_frame(case, ctx):
     ctx.tally('op', f'{op}/axis{axis}')
     ctx.tally('label_form', case['label'][0])
     label = case['label'][1]
+    sel_kind = spec.col_kind if axis == 1 else spec.row_kind
+    arg_non_tree = (case['keyfn'] is not None and case['label'][0] == 'list' and sel_kind.startswith('hier')
+                    and not K.is_tree(list(label)))
+    klass['key_fn_argument_non_tree'] = arg_non_tree
     if axis == 1:
         vectors = [spec.col_values(p) for p in case['key_pos']]
         for p in case['key_pos']:
@@ -925,7 +939,8 @@ def _check_frame(case, ctx):
         klass['key_dtypes'] = [spec.dtypes[p] for p in case['key_pos']]
         hier = spec.row_kind.startswith('hier')
         ctx.tally('index_kind', spec.row_kind)
-        _judge(ctx, case, lambda kw: f.sort_values(label, axis=1, **kw), in_snap, 'rows', vectors, rows, hier, False, 1, klass, fingerprint)
+        _judge(ctx, case, lambda kw: f.sort_values(label, axis=1, **kw), in_snap, 'rows', vectors, rows, hier, False, 1, klass, fingerprint,
+               arg_non_tree)
     else:
         vectors = [list(spec.cells[p]) for p in case['key_pos']]
         ctx.tally('axis0_family', case['family'])
@@ -935,7 +950,8 @@ def _check_frame(case, ctx):
         ctx.tally('axis0_distinct_dtypes', len(set(spec.dtypes)))
         hier = spec.col_kind.startswith('hier')
         ctx.tally('index_kind', spec.col_kind)
-        _judge(ctx, case, lambda kw: f.sort_values(label, axis=0, **kw), in_snap, 'cols', vectors, cols, hier, False, 0, klass, fingerprint)
+        _judge(ctx, case, lambda kw: f.sort_values(label, axis=0, **kw), in_snap, 'cols', vectors, cols, hier, False, 0, klass, fingerprint,
+               arg_non_tree)
 
 
 def check(case, ctx):
